@@ -10,7 +10,7 @@ for d in seeded/[!_]*/; do
   echo "=== $n: $ids"
   tier=quick; [ -f $d/tier.txt ] && tier=$(cat $d/tier.txt)
   [ -n "${SKIP_DONE:-}" ] && [ -f $d/detect.json ] && [ $d/detect.json -nt $d/checks.txt ] && continue
-  out=$(TIER=$tier MUT=/tmp/mutm tools/mutate.sh $d/patch.diff $ids 2>&1)
+  out=$(TIER=$tier MUT=${MUT:-/tmp/mutm} tools/mutate.sh $d/patch.diff $ids 2>&1)
   echo "$out" | python3 -c "
 import sys,json,re
 res={}; cur=None
